@@ -9,7 +9,7 @@ EXTENDS Integers, Sequences, FiniteSets, TLC, Json
 Trace == ndJsonDeserialize("trace.ndjson")
 VARIABLES l, model, viol, stat
 tvars == <<l, model, viol, stat>>
-Stat0 == [events |-> 0, runs |-> 0, stores |-> 0, loads |-> 0, misses |-> 0, injected |-> 0, concurrent |-> 0, s3calls |-> 0, empty |-> 0, large |-> 0,
+Stat0 == [rechecks |-> 0, events |-> 0, runs |-> 0, stores |-> 0, loads |-> 0, misses |-> 0, injected |-> 0, concurrent |-> 0, s3calls |-> 0, empty |-> 0, large |-> 0,
           mem |-> 0, file |-> 0, s3 |-> 0]
 None == "-"
 TInit == l = 1 /\ model = [i \in 0..7 |-> None] /\ viol = {} /\ stat = Stat0
@@ -26,10 +26,11 @@ TBegin == Is("sbegin") /\ model' = [i \in 0..7 |-> None] /\ Step({}, Bump(Bump(s
 TStore == /\ Is("store")
           /\ LET e == Ev
                  v == (IF e.res = "panic" THEN {V("Store panics")}
-                       ELSE IF e.inject /\ e.res # "err" THEN {V("a backend error is not returned to the caller of Store")}
+                       ELSE IF e.inject /\ ~e.transient /\ e.res # "err" THEN {V("a backend error is not returned to the caller of Store")}
                        ELSE IF ~e.inject /\ e.res # "ok" THEN {V("Store fails on a healthy backend")} ELSE {})
                       \cup KeyViol(e)
-             IN /\ model' = IF e.res = "ok" /\ ~e.inject THEN [model EXCEPT ![e.name] = e.dig] ELSE model
+             \* a transient backend error may be returned or ridden out by the backend; a Store that reports success has stored the bytes
+             IN /\ model' = IF e.res = "ok" /\ (~e.inject \/ e.transient) THEN [model EXCEPT ![e.name] = e.dig] ELSE model
                 /\ Step(v, BumpIf(BumpIf(BumpIf(Bump(stat, "stores"), e.inject, "injected"), e.len = 0, "empty"), e.len > 100000, "large"))
 TCStore == /\ Is("cstore")
            /\ LET e == Ev
@@ -47,7 +48,11 @@ TLoad == /\ Is("load")
                      \cup KeyViol(e)
             IN /\ UNCHANGED model
                /\ Step(v, BumpIf(BumpIf(Bump(stat, "loads"), want = None, "misses"), e.inject, "injected"))
-TNext == TBegin \/ TStore \/ TCStore \/ TLoad
+(* bytes handed to the caller by earlier Loads, looked at again after later calls (sequentially, or by concurrent readers) *)
+TRecheck == /\ Is("recheck")
+            /\ UNCHANGED model
+            /\ Step(IF Ev.changed > 0 THEN {V("bytes returned by an earlier Load changed under the caller after later calls")} ELSE {}, Bump(stat, "rechecks"))
+TNext == TBegin \/ TStore \/ TCStore \/ TLoad \/ TRecheck
 TSpec == TInit /\ [][TNext]_tvars
 Report == (l = Len(Trace) + 1) => PrintT(<<"REPORT", ToJson([viol |-> viol, stat |-> stat, consumed |-> l - 1])>>)
 =============================================================================
